@@ -54,7 +54,7 @@ def one_exec(cfg, order, fail, abort_at):
                 if bad and not seen_mid:
                     seen_mid.append((len(plan.events), bad))
 
-            plan = Plan(fail_oids=fail, abort_at=abort_at, on_event=on_event)
+            plan = Plan(fail_oids=fail, abort_at=abort_at, on_event=on_event, enoent=cfg.get("enoent", False))
             result = None
             try:
                 result = xw.transfer(ids, plan=plan, order=order, shallow=shallow, **xkw)
@@ -352,6 +352,13 @@ def configs(tier):
                 for request in ("closed", "expanded"):
                     yield {"scenario": s, "dest": dest, "index": index, "request": request,
                            "initial": "empty", "corrupt": bad}
+    # uploads that fail with FileNotFoundError (ENOENT from the destination although the source object exists)
+    for s in ("one", "sharing", "twopaths"):
+        for dest in ("base", "local"):
+            for index in (False, True):
+                for request in ("closed", "expanded"):
+                    yield {"scenario": s, "dest": dest, "index": index, "request": request,
+                           "initial": "empty", "enoent": True}
     # a listed file is missing from the source as well (cannot be delivered at all)
     for s, gone in (("one", ["y"]), ("sharing", ["y"]), ("sharing", ["x"]), ("three", ["z"])):
         for dest in ("base", "local"):
